@@ -105,6 +105,9 @@ def type_cells():
 
 
 def search(skip_known=True):
+    hit = submodule_cases() or extends_cases()
+    if hit:
+        return hit
     for cell in cells():
         default, default_pos, declattr, stmt, stmt_pos = cell
         if skip_known and default and default_pos == "late":
@@ -179,6 +182,35 @@ def spelling_cases():
     if bad:
         return {"confirmed": True, "input": {"source": text}, "actual": {k: v[0] for k, v in bad.items()}, "expected": {k: v[1] for k, v in bad.items()},
                 "how": "real parser; access statements naming generic identifiers with different blank placement; PROTECTED combined with PUBLIC"}
+    return None
+
+
+def submodule_cases():
+    """everything declared in a submodule is private, variables and named constants included, whatever its parent's default is"""
+    text = ("module par\n  implicit none\n  interface\n    module subroutine work()\n    end subroutine work\n  end interface\nend module par\n"
+            "submodule (par) impl\n  implicit none\n  integer :: counter\n  real, parameter :: tol = 1.0e-6\n  type :: local_t\n    integer :: c\n  end type local_t\n"
+            "  interface gen\n    module procedure helper\n  end interface gen\ncontains\n  module subroutine work()\n  end subroutine work\n  subroutine helper()\n  end subroutine helper\n"
+            "end submodule impl\n")
+    sub = realrun.parse_source(text).submodules[0]
+    got = {"counter": sub.variables[0].permission, "tol": sub.variables[1].permission, "local_t": sub.types[0].permission, "gen": sub.interfaces[0].permission,
+           "helper": sub.subroutines[0].permission if sub.subroutines else [p for p in getattr(sub, "routines", []) if p.name == "helper"][0].permission}
+    bad = {k: v for k, v in got.items() if v != "private"}
+    if bad:
+        return {"confirmed": True, "input": {"source": text}, "actual": bad, "expected": {k: "private" for k in bad}, "how": "real parser: accessibility of the entities of a submodule"}
+    return None
+
+
+def extends_cases():
+    """an access attribute on a TYPE statement counts whatever else the statement carries (EXTENDS, ABSTRACT, BIND) and in whatever order"""
+    for default in ("", "private"):
+        for attrs, want in (("extends(base), private", "private"), ("private, extends(base)", "private"), ("extends(base), public", "public"), ("public, extends(base)", "public"),
+                            ("abstract, extends(base), private", "private"), ("abstract, public", "public"), ("extends(base)", default or "public")):
+            text = (f"module m\n  implicit none\n{('  ' + default + chr(10)) if default else ''}  type, public :: base\n    integer :: b\n  end type base\n  type, {attrs} :: t\n    integer :: c\n  end type t\n"
+                    "end module m\n")
+            m = realrun.parse_source(text).modules[0]
+            got = [t for t in m.types if t.name == "t"][0].permission
+            if got != want:
+                return {"confirmed": True, "input": {"source": text}, "actual": {"t": got}, "expected": {"t": want}, "how": f"real parser: `type, {attrs} :: t` in a module with default '{default or 'public'}'"}
     return None
 
 
